@@ -75,6 +75,51 @@ def agg_variant(body, x):
     return out
 
 
+def ret_locals(body):
+    """locals whose whole value is copied/moved into the return place _0 (including _0): a helper
+    inlined in tail position builds the value in its own return local first"""
+    c = getattr(body, "_ret_locals", None)
+    if c is not None:
+        return c
+    out = {0}
+    changed = True
+    while changed:
+        changed = False
+        for i, j, st in body.statements():
+            if st["s"] == "assign" and not st["pl"]["p"] and st["pl"]["l"] in out and st["rv"]["r"] == "use" and not body.is_cleanup(i):
+                pl = op_place(st["rv"]["o"])
+                if pl is not None and not pl["p"] and pl["l"] not in out and pl["l"] > body.arg_count:
+                    out.add(pl["l"])
+                    changed = True
+    body._ret_locals = out
+    return out
+
+
+def ok_returns(body, variant="Ok"):
+    """[(bb, set of (adt, variant))]: the sites that decide the payload of `return Ok(payload)`.
+    `Ok(if c { A } else { B })` assigns the payload in each arm and wraps it in a shared join block:
+    then every arm is a site of its own (the block where the payload aggregate is built)."""
+    out = []
+    for i, j, st in body.statements():
+        if not (st["s"] == "assign" and st["pl"]["l"] in ret_locals(body) and not st["pl"]["p"] and st["rv"]["r"] == "agg" and st["rv"].get("variant") == variant) or body.is_cleanup(i):
+            continue
+        if not st["rv"]["fields"]:
+            out.append((i, set()))
+            continue
+        op = st["rv"]["fields"][0]
+        pl = op_place(op)
+        split = False
+        if pl is not None and not pl["p"]:
+            ds = body.defs().get(pl["l"], [])
+            if len(ds) > 1 and all(d[0] == "assign" and d[3]["rv"]["r"] == "agg" and d[3]["rv"].get("kind") == "adt" for d in ds):
+                for d in ds:
+                    out.append((d[1], {(d[3]["rv"]["adt"], d[3]["rv"].get("variant"))}))
+                split = True
+        if not split:
+            out.append((i, agg_variant(body, op)))
+    return out
+
+
 def stores_to_field(body, field, cleanup=False):
     """(bb, idx, stmt) of assignments whose destination place ends in .field (or passes through it)"""
     out = []
@@ -194,6 +239,27 @@ def switches_on_expr(body, pred):
         if pred(e):
             out.append(i)
     return out
+
+
+def switch_reads(body, sw):
+    """access paths whose value the switch at sw decides on (un-negated root): a place / its
+    discriminant, or the *old* value handed back by mem::replace / mem::take / Cell::replace on it
+    (`if mem::replace(&mut x.flag, false)` tests x.flag). Returns (kind, set of (root, path)) with
+    kind 'place' | 'discr' | None"""
+    e = body.expr(body.blocks[sw]["term"]["on"])
+    while e[0] == "not":
+        e = e[1]
+    if e[0] in ("place", "discr"):
+        return e[0], set(body.resolve(e[2]))
+    if e[0] == "call":
+        cs = body.call_at(e[1])
+        if cs is not None and cs.f and cs.f["path"] in ("std::mem::replace", "std::mem::take", "std::cell::Cell::<T>::replace", "std::cell::Cell::<T>::take", "std::cell::Cell::<T>::get") and cs.args:
+            out = set()
+            for root, path in body.resolve(cs.args[0]):
+                path = tuple(path[:-1]) if path and path[-1] == "&" else tuple(path)
+                out.add((root, path))
+            return "place", out
+    return None, set()
 
 
 def switches_on_discr_of(body, match_place):
@@ -624,6 +690,23 @@ def copy_chain_locals(body, op, depth=0):
 # ------------------------------------------------------------------------------------------
 # constant folding of an operand (for masks written as expressions, e.g. u64::MAX - 1)
 # ------------------------------------------------------------------------------------------
+
+
+def const_name(body, op, _depth=0):
+    """path (or printed form) of the named constant an operand is, followed through single
+    assignment copies (e.g. a constant passed to a helper that was inlined); "" if it is none"""
+    if not isinstance(op, dict):
+        return ""
+    k = op.get("k")
+    if k is not None:
+        return k.get("const_path", k.get("s", "")) or ""
+    pl = op_place(op)
+    if pl is None or pl["p"] or _depth > 8 or pl["l"] in body.mut_borrowed():
+        return ""
+    defs = body.defs().get(pl["l"], [])
+    if len(defs) != 1 or defs[0][0] != "assign" or defs[0][3]["rv"]["r"] != "use":
+        return ""
+    return const_name(body, defs[0][3]["rv"]["o"], _depth + 1)
 
 
 def const_value(body, op, bits=64, _depth=0):
